@@ -1,10 +1,10 @@
 package main
 
 import (
-	"strings"
 	"errors"
 	"fmt"
 	"math"
+	"strings"
 	"time"
 
 	tally "github.com/uber-go/tally/v4"
